@@ -15,6 +15,7 @@ import (
 	"os"
 	"reflect"
 	"runtime/debug"
+	"sort"
 	"time"
 
 	"github.com/TarsCloud/TarsGo/tars/protocol/codec"
@@ -247,7 +248,8 @@ func genCases(seed int64, thorough bool, tis []*tinfo) []dcase {
 				if f == nil {
 					continue
 				}
-				for name, repl := range inadmissibleSamples(f.T, n.Tag) {
+				for _, nr := range sortedSamples(inadmissibleSamples(f.T, n.Tag)) {
+					name, repl := nr.name, nr.repl
 					d := append(append(append([]byte(nil), base[:n.Start]...), repl...), base[n.End:]...)
 					cases = append(cases, dcase{ti: ti, kind: "T", what: fmt.Sprintf("member %s (%s) replaced by a %s field", f.Name, f.T, name), member: kindName(f.T) + "<-" + name, base: base, bytes: d, value: v})
 				}
@@ -257,7 +259,8 @@ func genCases(seed int64, thorough bool, tis []*tinfo) []dcase {
 						if cf == nil {
 							continue
 						}
-						for name, repl := range inadmissibleSamples(cf.T, c.Tag) {
+						for _, nr := range sortedSamples(inadmissibleSamples(cf.T, c.Tag)) {
+							name, repl := nr.name, nr.repl
 							d := append(append(append([]byte(nil), base[:c.Start]...), repl...), base[c.End:]...)
 							cases = append(cases, dcase{ti: ti, kind: "T", what: fmt.Sprintf("nested member %s.%s (%s) replaced by a %s field", f.Name, cf.Name, cf.T, name), member: "nested " + kindName(cf.T) + "<-" + name, base: base, bytes: d, value: v})
 						}
@@ -265,14 +268,16 @@ func genCases(seed int64, thorough bool, tis []*tinfo) []dcase {
 				}
 				if (f.T.Kind == rc.KVector) && len(n.List) > 0 {
 					c := n.List[0]
-					for name, repl := range inadmissibleSamples(f.T.Elem, 0) {
+					for _, nr := range sortedSamples(inadmissibleSamples(f.T.Elem, 0)) {
+						name, repl := nr.name, nr.repl
 						d := append(append(append([]byte(nil), base[:c.Start]...), repl...), base[c.End:]...)
 						cases = append(cases, dcase{ti: ti, kind: "T", what: fmt.Sprintf("first element of %s (%s) replaced by a %s field", f.Name, f.T, name), member: "element " + kindName(f.T.Elem) + "<-" + name, base: base, bytes: d, value: v})
 					}
 				}
 				if f.T.Kind == rc.KMap && len(n.Keys) > 0 {
 					c := n.Vals[0]
-					for name, repl := range inadmissibleSamples(f.T.Elem, 1) {
+					for _, nr := range sortedSamples(inadmissibleSamples(f.T.Elem, 1)) {
+						name, repl := nr.name, nr.repl
 						d := append(append(append([]byte(nil), base[:c.Start]...), repl...), base[c.End:]...)
 						cases = append(cases, dcase{ti: ti, kind: "T", what: fmt.Sprintf("first value of map %s (%s) replaced by a %s field", f.Name, f.T, name), member: "mapvalue " + kindName(f.T.Elem) + "<-" + name, base: base, bytes: d, value: v})
 					}
@@ -387,7 +392,8 @@ func tupCases(rep reporter, seed int64) {
 			try(base[:c], "made-up-data", "TUP-P:attribute-map", fmt.Sprintf("cut at %d of %d bytes", c, len(base)))
 		}
 		for i, sp := range valSpans {
-			for name, repl := range inadmissibleSamples(&rc.Type{Kind: rc.KVector, Elem: &rc.Type{Kind: rc.KInt8}}, 1) {
+			for _, nr := range sortedSamples(inadmissibleSamples(&rc.Type{Kind: rc.KVector, Elem: &rc.Type{Kind: rc.KInt8}}, 1)) {
+				name, repl := nr.name, nr.repl
 				d := append(append(append([]byte(nil), base[:sp[0]]...), repl...), base[sp[1]:]...)
 				pos := "last"
 				if i < n-1 {
@@ -407,14 +413,42 @@ func primitiveCases(rep reporter) {
 		read func(r *codec.Reader) (string, error)
 	}
 	var rs []rd
-	rs = append(rs, rd{"int16", rc.AppendIntWidth(nil, 0x1234, rc.TShort, 3), func(r *codec.Reader) (string, error) { var v int16; e := r.ReadInt16(&v, 3, true); return fmt.Sprint(v), e }})
-	rs = append(rs, rd{"int32", rc.AppendIntWidth(nil, 0x12345678, rc.TInt, 3), func(r *codec.Reader) (string, error) { var v int32; e := r.ReadInt32(&v, 3, true); return fmt.Sprint(v), e }})
-	rs = append(rs, rd{"int64", rc.AppendIntWidth(nil, 0x123456789abcdef0, rc.TLong, 3), func(r *codec.Reader) (string, error) { var v int64; e := r.ReadInt64(&v, 3, true); return fmt.Sprint(v), e }})
-	rs = append(rs, rd{"uint32-as-long", rc.AppendIntWidth(nil, 4000000000, rc.TLong, 3), func(r *codec.Reader) (string, error) { var v uint32; e := r.ReadUint32(&v, 3, true); return fmt.Sprint(v), e }})
-	rs = append(rs, rd{"float32", rc.AppendFloat32(nil, 0x3fc00000, 3), func(r *codec.Reader) (string, error) { var v float32; e := r.ReadFloat32(&v, 3, true); return fmt.Sprint(v), e }})
-	rs = append(rs, rd{"float64", rc.AppendFloat64(nil, 0x3ff8000000000000, 3), func(r *codec.Reader) (string, error) { var v float64; e := r.ReadFloat64(&v, 3, true); return fmt.Sprint(v), e }})
+	rs = append(rs, rd{"int16", rc.AppendIntWidth(nil, 0x1234, rc.TShort, 3), func(r *codec.Reader) (string, error) {
+		var v int16
+		e := r.ReadInt16(&v, 3, true)
+		return fmt.Sprint(v), e
+	}})
+	rs = append(rs, rd{"int32", rc.AppendIntWidth(nil, 0x12345678, rc.TInt, 3), func(r *codec.Reader) (string, error) {
+		var v int32
+		e := r.ReadInt32(&v, 3, true)
+		return fmt.Sprint(v), e
+	}})
+	rs = append(rs, rd{"int64", rc.AppendIntWidth(nil, 0x123456789abcdef0, rc.TLong, 3), func(r *codec.Reader) (string, error) {
+		var v int64
+		e := r.ReadInt64(&v, 3, true)
+		return fmt.Sprint(v), e
+	}})
+	rs = append(rs, rd{"uint32-as-long", rc.AppendIntWidth(nil, 4000000000, rc.TLong, 3), func(r *codec.Reader) (string, error) {
+		var v uint32
+		e := r.ReadUint32(&v, 3, true)
+		return fmt.Sprint(v), e
+	}})
+	rs = append(rs, rd{"float32", rc.AppendFloat32(nil, 0x3fc00000, 3), func(r *codec.Reader) (string, error) {
+		var v float32
+		e := r.ReadFloat32(&v, 3, true)
+		return fmt.Sprint(v), e
+	}})
+	rs = append(rs, rd{"float64", rc.AppendFloat64(nil, 0x3ff8000000000000, 3), func(r *codec.Reader) (string, error) {
+		var v float64
+		e := r.ReadFloat64(&v, 3, true)
+		return fmt.Sprint(v), e
+	}})
 	rs = append(rs, rd{"string1", rc.AppendString(nil, []byte("hello world"), 3), func(r *codec.Reader) (string, error) { var v string; e := r.ReadString(&v, 3, true); return v, e }})
-	rs = append(rs, rd{"string4", rc.AppendString4(nil, make([]byte, 300), 3), func(r *codec.Reader) (string, error) { var v string; e := r.ReadString(&v, 3, true); return fmt.Sprint(len(v)), e }})
+	rs = append(rs, rd{"string4", rc.AppendString4(nil, make([]byte, 300), 3), func(r *codec.Reader) (string, error) {
+		var v string
+		e := r.ReadString(&v, 3, true)
+		return fmt.Sprint(len(v)), e
+	}})
 	for _, x := range rs {
 		for c := 0; c < len(x.enc); c++ {
 			func() {
@@ -540,4 +574,18 @@ func countKind(cs []dcase, k string) int {
 		}
 	}
 	return n
+}
+
+type namedSample struct {
+	name string
+	repl []byte
+}
+
+func sortedSamples(m map[string][]byte) []namedSample {
+	var out []namedSample
+	for k, v := range m {
+		out = append(out, namedSample{k, v})
+	}
+	sort.Slice(out, func(i, j int) bool { return out[i].name < out[j].name })
+	return out
 }
